@@ -1150,6 +1150,9 @@ class Interp(Analyzer):
                 c = fv[1]
                 name = strip_generics(strip_turbofish(c.get('fn', '')))
                 rname = name
+        for suf, hook in self.call_hooks.items():
+            if name.endswith(suf) or rname.endswith(suf):
+                hook(self, t, args, frame, st, name)
         for suf, store in self.call_probes.items():
             if name.endswith(suf) or rname.endswith(suf):
                 rec = []
@@ -1700,6 +1703,7 @@ def new_analyzer(prog, **kw):
     an.sym_deps = {}
     an.cha_log = {}
     an.call_probes = {}
+    an.call_hooks = {}
     an.lossy_casts = {}
     an._trait_cache = {}
     an._leaf = {}
